@@ -64,6 +64,7 @@ type verifReq struct {
 	meta    string // x-amz-meta-a
 	sha     string // x-amz-content-sha256
 	date    string // x-amz-date
+	meta2   string // a second field line of the signed x-amz-meta-a header ("" = none)
 	extraK  string // an additional header (not in the signed list)
 	extraV  string
 	cred    string
@@ -80,11 +81,13 @@ func verifBase(presign bool) verifReq {
 func (q verifReq) build() *http.Request {
 	r := &http.Request{Method: q.method, Host: "s3.example", Header: http.Header{}, URL: &url.URL{Path: q.path, RawQuery: q.query}, Body: http.NoBody}
 	r.Header["X-Amz-Meta-A"] = []string{q.meta}
+	if q.meta2 != "" {
+		r.Header["X-Amz-Meta-A"] = []string{q.meta, q.meta2}
+	}
 	if q.extraK != "" {
 		r.Header[http.CanonicalHeaderKey(q.extraK)] = []string{q.extraV}
 	}
 	if q.presign {
-		r.Header["X-Amz-Meta-A"] = []string{q.meta}
 		v := r.URL.Query()
 		v.Set("X-Amz-Algorithm", "AWS4-HMAC-SHA256")
 		v.Set("X-Amz-Credential", q.cred)
@@ -139,7 +142,7 @@ func VerifC28Mutations() {
 	}
 	m := q
 	identity := false
-	switch verifPick("mutation", 0, 11) {
+	switch verifPick("mutation", 0, 12) {
 	case 0:
 		m.method = []string{"GET", "DELETE", "POST"}[verifPick("method", 0, 2)]
 	case 1: // a byte of the object key
@@ -194,6 +197,8 @@ func VerifC28Mutations() {
 		}
 		verifNowOffset = 0
 		return
+	case 12: // a second field line appended to a signed header
+		m.meta2 = "evil"
 	case 11: // the signed header list loses a header the request carries
 		verifAssume(!q.presign)
 		m.signed = "host;x-amz-content-sha256;x-amz-date"
